@@ -253,6 +253,11 @@ func RetResults(ret *ssa.Return) []ssa.Value {
 		if !ok {
 			continue
 		}
+		// a deferred closure that can overwrite the result (other than replacing nil by something) makes the spilled
+		// value meaningless: keep the load, which no rule can reason about
+		if w, monotone := DeferredResultWrites(al); w && !monotone {
+			continue
+		}
 		b := ret.Block()
 		for j := len(b.Instrs) - 1; j >= 0; j-- {
 			if st, ok := b.Instrs[j].(*ssa.Store); ok && st.Addr == ssa.Value(al) {
@@ -262,6 +267,55 @@ func RetResults(ret *ssa.Return) []ssa.Value {
 		}
 	}
 	return out
+}
+
+// DeferredResultWrites: closures created in the function (deferred or not) store into the result cell `al`; monotone: every
+// such store is guarded by `cell == nil` (it can replace a nil result by something, never hide a non-nil one).
+func DeferredResultWrites(al *ssa.Alloc) (writes bool, monotone bool) {
+	monotone = true
+	for _, ref := range *al.Referrers() {
+		mc, ok := ref.(*ssa.MakeClosure)
+		if !ok {
+			continue
+		}
+		fn, ok := mc.Fn.(*ssa.Function)
+		if !ok {
+			continue
+		}
+		for i, bnd := range mc.Bindings {
+			if bnd != ssa.Value(al) || i >= len(fn.FreeVars) {
+				continue
+			}
+			fv := fn.FreeVars[i]
+			for _, r2 := range *fv.Referrers() {
+				st, ok := r2.(*ssa.Store)
+				if !ok || st.Addr != ssa.Value(fv) {
+					continue
+				}
+				writes = true
+				guarded := false
+				for _, cd := range DomConds(st.Block()) {
+					c := norm(cd)
+					bo, ok := c.V.(*ssa.BinOp)
+					if !ok {
+						continue
+					}
+					for _, pair := range [][2]ssa.Value{{bo.X, bo.Y}, {bo.Y, bo.X}} {
+						ld, ok := pair[0].(*ssa.UnOp)
+						if ok && ld.Op == token.MUL && ld.X == ssa.Value(fv) && IsNilConst(pair[1]) {
+							if (bo.Op == token.EQL && c.Pol) || (bo.Op == token.NEQ && !c.Pol) {
+								guarded = true
+							}
+						}
+					}
+				}
+				if !guarded {
+					monotone = false
+				}
+			}
+		}
+	}
+	return writes, monotone
 }
 
 // Returns lists the return instructions of f (the synthetic recover block of a
@@ -277,6 +331,117 @@ func Returns(f *ssa.Function) []*ssa.Return {
 		}
 	}
 	return out
+}
+
+// Forwarded: v is a load of a local cell (the shape a named result takes when a deferred closure captures it:
+// `*err = f(); t = *err`); the result is the value of the unique store that reaches the load - it dominates the load and
+// no other store to the cell, and no point at which deferred functions run, lies on a path between them - otherwise nil.
+func Forwarded(v ssa.Value) ssa.Value {
+	ld, ok := v.(*ssa.UnOp)
+	if !ok || ld.Op != token.MUL {
+		return nil
+	}
+	al, ok := ld.X.(*ssa.Alloc)
+	if !ok {
+		return nil
+	}
+	// the cell may be written by the function's own stores and by closures that capture it (run at rundefers / when called)
+	var stores []*ssa.Store
+	var clobbers []ssa.Instruction
+	for _, ref := range *al.Referrers() {
+		switch x := ref.(type) {
+		case *ssa.Store:
+			if x.Addr == ssa.Value(al) {
+				stores = append(stores, x)
+			} else {
+				return nil // the address is stored somewhere
+			}
+		case *ssa.UnOp, *ssa.DebugRef:
+		case *ssa.MakeClosure:
+			// the closure runs where it is called or, when deferred, at the function's rundefers
+			for _, r2 := range *x.Referrers() {
+				switch y := r2.(type) {
+				case *ssa.Defer:
+				case ssa.CallInstruction:
+					clobbers = append(clobbers, y)
+				default:
+					return nil
+				}
+			}
+		default:
+			return nil
+		}
+	}
+	for _, b := range ld.Parent().Blocks {
+		for _, in := range b.Instrs {
+			if rd, ok := in.(*ssa.RunDefers); ok {
+				clobbers = append(clobbers, rd)
+			}
+		}
+	}
+	var best *ssa.Store
+	for _, st := range stores {
+		if !InstrDominates(st, ld) {
+			continue
+		}
+		if best == nil || InstrDominates(best, st) {
+			best = st
+		}
+	}
+	if best == nil {
+		return nil
+	}
+	between := func(x ssa.Instruction) bool {
+		return x != ssa.Instruction(best) && instrReaches(best, x, nil) && instrReaches(x, ld, best)
+	}
+	for _, st := range stores {
+		if st != best && between(st) {
+			return nil
+		}
+	}
+	for _, c := range clobbers {
+		if between(c) {
+			return nil
+		}
+	}
+	return best.Val
+}
+
+// sameErrValue: the same SSA value, or loads of a local cell that see the same store.
+func sameErrValue(a, e ssa.Value) bool {
+	if a == e {
+		return true
+	}
+	fa, fe := Forwarded(a), Forwarded(e)
+	return (fa != nil && fa == e) || (fe != nil && fe == a) || (fa != nil && fa == fe)
+}
+
+// instrReaches: control can go from `from` to `to` without executing `avoid`.
+func instrReaches(from, to, avoid ssa.Instruction) bool {
+	g := G(from.Parent())
+	seen := map[*ssa.BasicBlock]bool{}
+	var walk func(b *ssa.BasicBlock, idx int) bool
+	walk = func(b *ssa.BasicBlock, idx int) bool {
+		for i := idx; i < len(b.Instrs); i++ {
+			if b.Instrs[i] == to {
+				return true
+			}
+			if avoid != nil && b.Instrs[i] == avoid {
+				return false
+			}
+		}
+		for _, sx := range g.Succs(b) {
+			if seen[sx] {
+				continue
+			}
+			seen[sx] = true
+			if walk(sx, 0) {
+				return true
+			}
+		}
+		return false
+	}
+	return walk(from.Block(), InstrIndex(from)+1)
 }
 
 // CondHolds searches conds for a condition on value v and returns its polarity.
@@ -299,9 +464,9 @@ func ErrNonNil(conds []Cond, e ssa.Value) (nonnil bool, known bool) {
 			continue
 		}
 		var other ssa.Value
-		if b.X == e {
+		if sameErrValue(b.X, e) {
 			other = b.Y
-		} else if b.Y == e {
+		} else if sameErrValue(b.Y, e) {
 			other = b.X
 		} else {
 			continue
